@@ -248,8 +248,17 @@ class Polyhedron(Shape3D):
         for i, face in enumerate(self.faces):
             new_faces[labels[i]].update(face)
 
+        old_faces = self._faces
         self._faces = [np.asarray(list(f)) for f in new_faces]
-        self.sort_faces()
+        try:
+            self.sort_faces()
+        except Exception:
+            # A failed merge (e.g. the merged face is not convex) must not leave
+            # the polyhedron with half-merged faces.
+            self._faces = old_faces
+            raise
+        # The edge list is cached and depends on the faces.
+        self.__dict__.pop("edges", None)
 
     @property
     def neighbors(self):
